@@ -65,6 +65,9 @@ def build_args(it, c, fn, cls, case=None):
             sh = shapes[nm]
             if isinstance(sh, tuple) and sh and sh[0] == "const":
                 vals[nm] = it.const(sh[1])
+            elif isinstance(sh, tuple) and sh and sh[0] == "builtin":
+                from . import lib
+                vals[nm] = lib.builtin(it, sh[1])
             else:
                 vals[nm] = it.fresh(sh, "arg." + nm)
         elif defaults[i] is not None:
